@@ -54,6 +54,79 @@ Definition ev_eqb (e : enc_event) (o : list B * list B * bool) : bool :=
   let '(argv, concat, existed) := o in
   list_eqb str_eqb_b (e_argv e) argv && list_eqb str_eqb_b (e_concat e) concat && Bool.eqb (e_existed e) existed.
 
+(* ---- the property's own clauses (C04 and C05) evaluated on what was observed, for runs that
+   differ from the model (another failure policy, fewer stats, ...):
+   - every encoder run is for one group of the listing, validated and not skipped, with the
+     concat list holding each chapter once in ascending order as source paths, the configured
+     arguments unchanged except for the slot after -i, and the output path last;
+   - at most one run per video; never over an existing output unless overwriting;
+   - on return no temporary file is left and every source file is there with its time;
+   - every listed path is the output of a run and carries its first chapter's time; a run without
+     error lists every output it produced. ---- *)
+Definition lines_of (c : cfg) (chapters : list file) : list string :=
+  map (fun f => "file '" ++ join (c_source c) (fname f) ++ "'")%string chapters.
+Definition slist_eqb (a b : list string) : bool := list_eqb String.eqb a b.
+Definition is_tmp (p : string) : bool := String.prefix "tmp/" p.
+Definition event_group (c : cfg) (g : groups) (concat : list string) : option (string * list file) :=
+  find (fun kc => slist_eqb (lines_of c (snd kc)) concat) g.
+Definition event_ok (c : cfg) (idx : Z) (g : groups) (ev : list string * list string * bool) : bool :=
+  let '(argv, concat, existed) := ev in
+  match event_group c g concat with
+  | Some (_, (first :: _) as chapters) =>
+      validate chapters && negb (str_in (fname first) (c_skip c)) &&
+      (let t := nth (Z.to_nat idx) argv ""%string in
+       is_tmp t && slist_eqb argv (app (set_nth (Z.to_nat idx) t (c_args c)) [output_path c (fname first)])) &&
+      (negb existed || c_overwrite c)
+  | _ => false
+  end.
+Fixpoint nodup_s (l : list string) : bool :=
+  match l with [] => true | x :: r => negb (str_in x r) && nodup_s r end.
+Definition prop_ok (c : pcase) : bool :=
+  let cf := cfg_of c in
+  match input_index (c_args cf) with
+  | None => false
+  | Some idx =>
+    let g := file_sets (map (fun '(p, d) => (s p, d)) (pc_listing c)) in
+    let evs := map (fun '(a, b, e) => (map s a, map s b, e)) (pc_events c) in
+    let final := map (fun '(p, m) => (s p, m)) (pc_final c) in
+    let init := map (fun '(p, m) => (s p, m)) (pc_world c) in
+    let outs := map (fun '(argv, _, _) => last argv ""%string) evs in
+    let keys := map (fun '(_, concat, _) => match event_group cf g concat with Some (k, _) => k | None => ""%string end) evs in
+    let mtime_of (w : list (string * Z)) (p : string) := option_map snd (find (fun e => String.eqb (fst e) p) w) in
+    forallb (event_ok cf idx g) evs && nodup_s keys &&
+    forallb (fun e => negb (is_tmp (fst e))) final &&
+    (* sources: every initial file that is not the output of a run is unchanged *)
+    forallb (fun e => str_in (fst e) outs || match mtime_of final (fst e) with Some m => m =? snd e | None => false end) init &&
+    (* listed paths are outputs carrying the first chapter's time *)
+    forallb (fun f =>
+               existsb (fun '(argv, concat, _) =>
+                          String.eqb (last argv ""%string) f &&
+                          match event_group cf g concat with
+                          | Some (_, first :: _) =>
+                              (* (a template that names the first chapter itself makes the output
+                                 overwrite its own source: nothing can be demanded of its time) *)
+                              String.eqb f (join (c_source cf) (fname first)) ||
+                              match mtime_of init (join (c_source cf) (fname first)), mtime_of final f with
+                              | Some a, Some b => a =? b
+                              | _, _ => false
+                              end
+                          | _ => false
+                          end) evs) (map s (pc_files c)) &&
+    nodup_s (map s (pc_files c)) &&
+    (* without an error every output that now carries its first chapter's time is listed *)
+    (negb (Nat.eqb (pc_class c) 0) ||
+     forallb (fun '(argv, concat, _) =>
+                let out := last argv ""%string in
+                match event_group cf g concat with
+                | Some (_, first :: _) =>
+                    match mtime_of init (join (c_source cf) (fname first)), mtime_of final out with
+                    | Some a, Some b => negb (a =? b) || str_in out (map s (pc_files c))
+                    | _, _ => true
+                    end
+                | _ => false
+                end) evs)
+  end.
+
 Definition check_p (c : pcase) : verdict :=
   match pc_class c with
   | 2%nat | 3%nat => VV
@@ -70,7 +143,9 @@ Definition check_p (c : pcase) : verdict :=
          && list_eqb str_eqb_b files (pc_files c)
          && list_eqb ev_eqb (s_events st) (pc_events c)
          && world_sub (s_world st) (pc_final c) && world_sup (s_world st) (pc_final c)
-      then VA else VV
+      then VA
+      else if (Nat.eqb cls 0 || Nat.eqb cls 1) && prop_ok c then VS
+      else VV
     end
   end.
 
